@@ -2,6 +2,7 @@
 import re
 import weakref
 
+from vf import values
 from vf import core, extract
 from vf.ref import nfa as rn
 from vf.ref import regexsem as rs
@@ -75,7 +76,7 @@ def pre_shadow(self, args, kwargs):
 
 def word_vals(word):
     try:
-        w = list(word)
+        w = values.items_of(word)
     except TypeError:
         return None
     out = []
@@ -264,8 +265,8 @@ def run_case(c, stats):
                     break
         return False
     syms = sorted(ref.alpha)[:3]
-    for wd in rn.all_words(syms + ["zz_foreign"], 3 if len(syms) <= 2 else 2):
-        call(r.accepts, list(wd))
+    for i, wd in enumerate(rn.all_words(syms + ["zz_foreign"], 3 if len(syms) <= 2 else 2)):
+        call(r.accepts, values.word_form(wd, i))
     call(r.to_epsilon_nfa)
     call(r.accepts, syms[:1])          # again after the conversion (cached automaton)
     call(r.to_cfg)
@@ -286,4 +287,11 @@ def run_case(c, stats):
                         call(x.to_epsilon_nfa)
                         call(str, x)
                         call(x.to_cfg)
+            # the operands after they were combined and the combinations queried: r2 is asked for the first time
+            with core.oracle_mode():
+                sh2 = SHADOW.get(r2)
+            if sh2 is not None:
+                for wd in rn.all_words(sorted(sh2[0].alpha | set(syms))[:3], 2):
+                    call(r2.accepts, list(wd))
+                    call(r.accepts, list(wd))
     return nt
